@@ -193,6 +193,12 @@ def s(data, graph):
 """, f, no_inline=["from_dict_nx"])
     gl = [e for e in ex.events if e.name == "store_sub"]
     sl = [e for e in sp.events if e.name == "store_sub"]
+    from ..termflow import ADict as _AD
+
+    if len(gl) != len(sl) and gl and isinstance(gl[0].args[0], _AD) and gl[0].args[0].items and gl[0].args[0].doms:
+        # the mapping is built whole (a comprehension over the nodes) and only completed by stores: the obligation below
+        # compares store by store and has no counterpart for entries that were never stored
+        raise AnalysisError("S5 / get_tree_from_consensus_graph: the label mapping is built whole by a comprehension (%d stores against %d in the reference): cannot compare store by store" % (len(gl), len(sl)))
     same_events(ctx, "S5", "get_tree_from_consensus_graph: labels from the nodes' idxs, every uncovered data point labelled as outlier", f, gl, sl, "labels[...] stores")
     spg = spec(prog, """
 def s(data, graph):
